@@ -64,6 +64,21 @@ func injectFaultClass(p *PRNG, class string, tree *[]*DNode) *fault {
 		}
 		src := Pick(p, c)
 		cp := cloneTree([]*DNode{src})[0]
+		if class == "duplicate-type" && p.Chance(1, 3) {
+			// a fresh name that nothing refers to, declared twice with different notations (in either order)
+			a := &DNode{Keyword: "TYPE", Params: []string{"@dup_kinds"}, Body: "{\n  \"dup\": 1\n}", BodyKind: "schema"}
+			var b *DNode
+			if p.Chance(1, 2) {
+				b = &DNode{Keyword: "TYPE", Params: []string{"@dup_kinds", "regex"}, Body: "/ab+c/", BodyKind: "regex"}
+			} else {
+				b = &DNode{Keyword: "TYPE", Params: []string{"@dup_kinds", "any"}}
+			}
+			if p.Chance(1, 2) {
+				a, b = b, a
+			}
+			appendTop(a)
+			cp = b
+		}
 		appendTop(cp)
 		return &fault{class, []string{"already", "duplicat", "not unique", "Duplicat"}, cp}
 	case "duplicate-macro":
